@@ -326,7 +326,7 @@ pub fn run(tier: Tier, seed: u64) -> i32 {
         }
         Ok(())
     });
-    let n = ctx.pick(300_000, 4_000_000);
+    let n = ctx.pick(1_000_000, 12_000_000);
     ctx.par_random(n, 220, 16, |tape, l| {
         let (g, input, seed) = decode(tape);
         debug_assert!(wf(&g), "ill-formed: {}", render(&g));
